@@ -4,7 +4,7 @@ package state
 // the caller does with them afterwards.
 func Verif_C08_buffers() {
 	tdt := NewTrackableDataTrie([]byte("id"), nil)
-	klen, vlen := 1+verifChoice("klen", 2), verifChoice("vlen", 3) // value may be empty (= delete)
+	klen, vlen := 1+verifChoice("klen", 2), verifChoice("vlen", 6) // value 0..5 bytes: may end with key+identifier // value may be empty (= delete)
 	kspare, vspare := verifChoice("kspare", 4), verifChoice("vspare", 6)
 	// caller buffers: the key / value are the first bytes of larger arrays (spare capacity behind them)
 	kbuf := make([]byte, klen+kspare)
